@@ -122,6 +122,21 @@ theorem C20_mode_config (modes : List ModeDef) (hne : ∀ md ∈ modes, md.value
 /-- the hypotheses hold for the default modes and the repaired constructor uses its argument -/
 example : (newModelModes [⟨"eco", ["on", "off"]⟩]).map (·.modes.map (·.name)) = some ["eco"] := by decide
 
+/-- **The excluded points are real, and what the code does there.**
+(1) `C20_mode_seq` needs distinct values: with values a,b,a the current value "a" is always taken to be
+its FIRST occurrence (`C20_mode_step` holds as stated, with `indexOf`), so from index 1 two steps of +1
+end on "b", not on the value at (1+2) mod 3.
+(2) `C20_mode_config` needs distinct mode names: with two modes named "m" the initial value is the first
+value of the LAST one while `AvailableValues` serves the FIRST one, so the initial value is not one of
+the mode's available values. -/
+theorem C20_mode_hypotheses_needed :
+    (lookup "m" (Model.run ⟨[⟨"m", ["a", "b", "a"]⟩], [("m", "b")]⟩
+        [relReq "m" 1 .none, relReq "m" 1 .none]).values = some "b" ∧
+      ["a", "b", "a"][((1 : Int) + 2) % 3 |>.toNat]? = some "a") ∧
+    (lookup "m" (initialValues [⟨"m", ["a"]⟩, ⟨"m", ["b"]⟩]) = some "b" ∧
+      availableValues [⟨"m", ["a"]⟩, ⟨"m", ["b"]⟩] "m" = ["a"]) := by
+  decide
+
 /-- **No panic on well-formed configuration**: `NewModelModes` panics exactly when some mode has no
 values; `UpdateModeValues` has no panic outcome at all (total function). -/
 theorem C20_mode_no_panic (modes : List ModeDef) :
